@@ -34,13 +34,13 @@ BUILT = {
         "C", "5/C07",
         "deterministic simulation: real ExecutionManager::run on a paused, seeded current-thread tokio runtime (discrete-event virtual time) behind a scripted ExecutionClient (delays around the timeout, silence, errors), history check with exact virtual timestamps",
         "Seeded search over request batches (1-64 outstanding, bursts), per-request client behaviour (Ok / fully filled / rejected / connectivity error after any delay below, at or above the timeout, or never), timeouts from 1 ms to 60 s, select! tie-breaks and a response receiver that goes away. The recorded response history must contain exactly one event per accepted request, at the exact virtual instant, of the right kind and attribution, the client's own answer iff it beat the timeout.",
-        "Trusted: the scripted client, the virtual-time driver/collector and tokio's paused-clock runtime (timer wheel, FIFO run queue, seeded select!). A response exactly at the timeout instant is accepted either way. Multi-threaded runtime scheduling is not explored.",
+        "Trusted: the scripted client, the virtual-time driver/collector and tokio's paused-clock runtime (timer wheel, FIFO run queue, seeded select!). A response exactly at the timeout instant is accepted either way (so a change that only flips that tie, seeded change C07_4, is not reported). Multi-threaded runtime scheduling and real scheduler delays are not explored.",
     ),
     "C04": (
         "C", "5/C04",
-        "deterministic simulation: random multi-exchange topologies with one real ExecutionManager (init+run) per exchange running concurrently on a paused tokio runtime, real engine issuing requests for every instrument, clients emitting account events by name; routing invariant + index<->name round trip per topology",
+        "deterministic simulation: random multi-exchange topologies (shared names, perpetuals settled in a third asset, tracked-but-untraded exchanges) wired by the real ExecutionBuilder::add_live / ExecutionBuild::init with one ExecutionManager per traded exchange running concurrently on a paused tokio runtime, real engine issuing requests for every instrument, clients emitting account events by name (also reports naming a foreign exchange); routing invariant + index<->name round trip per topology",
         "Seeded search over instrument collections (1-4 exchanges, spot/perpetual, shared asset and instrument names, any definition order). For each topology every index of every exchange must translate index->name->index to itself and foreign indices must not translate; then, with all managers running, every request must reach exactly its exchange's client addressed to that instrument's exchange name, and every balance / order / trade event emitted by name must change exactly the named asset / instrument in the engine.",
-        "Trusted: the scripted clients and the virtual-time driver. The round-trip part is a per-topology check that rides on the simulation's random topologies; the routing part needs the running managers. Response timing faults are C07's subject and not injected here.",
+        "Trusted: the scripted clients (one const-generic client type per simulator exchange) and the virtual-time driver. The round-trip part is a per-topology check that rides on the simulation's random topologies; the routing part needs the running managers and the builder's link table. Response timing faults are C07's subject and not injected here.",
     ),
     "C10": (
         "F", "5/C10",
@@ -58,7 +58,7 @@ BUILT = {
         "B", "5/C14",
         "deterministic simulation: seeded per-exchange market/account link drops and heals (partition / heal) fed through the real Engine; two-booleans-per-exchange health model + on-disconnect call log after every event",
         "Seeded search over sequences of market items, account items and market/account reconnect notices across 1-4 exchanges from the all-reconnecting start, processed by the real engine; after each event every per-exchange flag, the global flag, the on-disconnect strategy call log and the audit's disconnect outputs are compared with a health model written from the statement.",
-        "Trusted: the 2-boolean model and the counting strategy stub. Quick and thorough use the synchronous engine feed; the reconnect combinators that produce the notices in a live system are exercised by C12's simulator.",
+        "Trusted: the 2-boolean model and the counting strategy stub. The healing event is drawn from every account event kind. Quick and thorough use the synchronous engine feed; the reconnect combinators that produce the notices in a live system are exercised by C12's simulator (the end-to-end composition sketched in DESIGN.md was not built).",
     ),
     "C15": (
         "B", "5/C15",
